@@ -1,72 +1,62 @@
 // auto-generated: "lalrpop 0.23.1"
-// sha3: 57d0cb23e34c47d19fb0f9d4953acb466e87748373f2c80e7983461d766e4c1f
+// sha3: e384f71fa437337081976bc05fd0ce1831c90bfb0b914b3a6f7c78798601a46d
 use crate::rt::*;
 #[allow(unused_extern_crates)]
-extern crate lalrpop_util as ___lalrpop_util;
+extern crate lalrpop_util as __lalrpop_util;
 #[allow(unused_imports)]
-use self::___lalrpop_util::state_machine as ___state_machine;
+use self::__lalrpop_util::state_machine as __state_machine;
 #[allow(unused_extern_crates)]
 extern crate alloc;
 
 #[rustfmt::skip]
 #[allow(explicit_outlives_requirements, non_snake_case, non_camel_case_types, unused_mut, unused_variables, unused_imports, unused_parens, clippy::needless_lifetimes, clippy::type_complexity, clippy::needless_return, clippy::too_many_arguments, clippy::match_single_binding, clippy::clone_on_copy, clippy::unit_arg)]
-mod ___parse_____sym1 {
+mod __parse__S {
 
     use crate::rt::*;
     #[allow(unused_extern_crates)]
-    extern crate lalrpop_util as ___lalrpop_util;
+    extern crate lalrpop_util as __lalrpop_util;
     #[allow(unused_imports)]
-    use self::___lalrpop_util::state_machine as ___state_machine;
+    use self::__lalrpop_util::state_machine as __state_machine;
     #[allow(unused_extern_crates)]
     extern crate alloc;
-    use super::___ToTriple;
+    use super::__ToTriple;
     #[allow(dead_code)]
-    pub(crate) enum ___Symbol<>
+    pub(crate) enum __Symbol<>
      {
         Variant0(Tok),
         Variant1(i64),
         Variant2(Tree),
     }
-    const ___ACTION: &[i8] = &[
+    const __ACTION: &[i8] = &[
         // State 0
-        2, 3, 0, 0, 0, 0,
+        2, 0, 0,
         // State 1
-        0, 0, 0, 0, 4, 0,
+        3, 9, 0,
         // State 2
-        0, 0, 0, 0, 5, 0,
+        0, 9, 0,
         // State 3
-        0, 0, 0, 0, 0, 14,
+        5, 9, 0,
         // State 4
-        0, 0, 0, 0, 0, 14,
+        0, 9, 0,
         // State 5
-        0, 0, 0, 0, 0, 0,
+        0, 0, 7,
         // State 6
-        0, 0, 11, 0, 0, 0,
+        4, 0, 0,
         // State 7
-        0, 0, 0, 12, 0, 0,
+        0, 0, -3,
         // State 8
-        0, 0, 0, 15, 0, 0,
+        0, 0, -9,
         // State 9
-        0, 0, 16, 0, 0, 0,
+        0, 0, -4,
         // State 10
-        0, 0, 0, 0, 0, 0,
+        0, 0, -5,
         // State 11
-        0, 0, 0, 0, 0, 0,
-        // State 12
-        0, 0, -3, -10, 0, 0,
-        // State 13
-        0, 0, -5, -5, 0, 0,
-        // State 14
-        0, 0, 0, 0, 0, 0,
-        // State 15
-        0, 0, 0, 0, 0, 0,
-        // State 16
-        0, 0, -10, -3, 0, 0,
+        0, 0, -6,
     ];
-    fn ___action(state: i8, integer: usize) -> i8 {
-        ___ACTION[(state as usize) * 6 + integer]
+    fn __action(state: i8, integer: usize) -> i8 {
+        __ACTION[(state as usize) * 3 + integer]
     }
-    const ___EOF_ACTION: &[i8] = &[
+    const __EOF_ACTION: &[i8] = &[
         // State 0
         0,
         // State 1
@@ -78,60 +68,41 @@ mod ___parse_____sym1 {
         // State 4
         0,
         // State 5
-        -4,
+        -10,
         // State 6
         0,
         // State 7
-        0,
+        -3,
         // State 8
-        0,
+        -9,
         // State 9
-        0,
+        -4,
         // State 10
-        -7,
+        -5,
         // State 11
         -6,
-        // State 12
-        0,
-        // State 13
-        0,
-        // State 14
-        -9,
-        // State 15
-        -8,
-        // State 16
-        0,
     ];
-    fn ___goto(state: i8, nt: usize) -> i8 {
+    fn __goto(state: i8, nt: usize) -> i8 {
         match nt {
-            2 => match state {
-                2 => 8,
-                _ => 6,
-            },
+            2 => 5,
             4 => match state {
-                4 => 16,
-                _ => 12,
-            },
-            5 => 5,
-            6 => match state {
                 2 => 9,
+                3 => 10,
+                4 => 11,
                 _ => 7,
             },
             _ => 0,
         }
     }
     #[allow(clippy::needless_raw_string_hashes)]
-    const ___TERMINAL: &[&str] = &[
-        r###""a""###,
-        r###""b""###,
-        r###""c""###,
-        r###""d""###,
-        r###""e""###,
-        r###""q""###,
+    const __TERMINAL: &[&str] = &[
+        r###""x""###,
+        r###""y""###,
+        r###""z""###,
     ];
-    fn ___expected_tokens(___state: i8) -> alloc::vec::Vec<alloc::string::String> {
-        ___TERMINAL.iter().enumerate().filter_map(|(index, terminal)| {
-            let next_state = ___action(___state, index);
+    fn __expected_tokens(__state: i8) -> alloc::vec::Vec<alloc::string::String> {
+        __TERMINAL.iter().enumerate().filter_map(|(index, terminal)| {
+            let next_state = __action(__state, index);
             if next_state == 0 {
                 None
             } else {
@@ -139,33 +110,33 @@ mod ___parse_____sym1 {
             }
         }).collect()
     }
-    fn ___expected_tokens_from_states<
+    fn __expected_tokens_from_states<
     >(
-        ___states: &[i8],
+        __states: &[i8],
         _: core::marker::PhantomData<()>,
     ) -> alloc::vec::Vec<alloc::string::String>
     {
-        ___TERMINAL.iter().enumerate().filter_map(|(index, terminal)| {
-            if ___accepts(None, ___states, Some(index), core::marker::PhantomData::<()>) {
+        __TERMINAL.iter().enumerate().filter_map(|(index, terminal)| {
+            if __accepts(None, __states, Some(index), core::marker::PhantomData::<()>) {
                 Some(alloc::string::ToString::to_string(terminal))
             } else {
                 None
             }
         }).collect()
     }
-    struct ___StateMachine<>
+    struct __StateMachine<>
     where 
     {
-        ___phantom: core::marker::PhantomData<()>,
+        __phantom: core::marker::PhantomData<()>,
     }
-    impl<> ___state_machine::ParserDefinition for ___StateMachine<>
+    impl<> __state_machine::ParserDefinition for __StateMachine<>
     where 
     {
         type Location = i64;
         type Error = u64;
         type Token = Tok;
         type TokenIndex = usize;
-        type Symbol = ___Symbol<>;
+        type Symbol = __Symbol<>;
         type Success = Tree;
         type StateIndex = i8;
         type Action = i8;
@@ -184,39 +155,39 @@ mod ___parse_____sym1 {
 
         #[inline]
         fn token_to_index(&self, token: &Self::Token) -> Option<usize> {
-            ___token_to_integer(token, core::marker::PhantomData::<()>)
+            __token_to_integer(token, core::marker::PhantomData::<()>)
         }
 
         #[inline]
         fn action(&self, state: i8, integer: usize) -> i8 {
-            ___action(state, integer)
+            __action(state, integer)
         }
 
         #[inline]
         fn error_action(&self, state: i8) -> i8 {
-            ___action(state, 6 - 1)
+            __action(state, 3 - 1)
         }
 
         #[inline]
         fn eof_action(&self, state: i8) -> i8 {
-            ___EOF_ACTION[state as usize]
+            __EOF_ACTION[state as usize]
         }
 
         #[inline]
         fn goto(&self, state: i8, nt: usize) -> i8 {
-            ___goto(state, nt)
+            __goto(state, nt)
         }
 
         fn token_to_symbol(&self, token_index: usize, token: Self::Token) -> Self::Symbol {
-            ___token_to_symbol(token_index, token, core::marker::PhantomData::<()>)
+            __token_to_symbol(token_index, token, core::marker::PhantomData::<()>)
         }
 
         fn expected_tokens(&self, state: i8) -> alloc::vec::Vec<alloc::string::String> {
-            ___expected_tokens(state)
+            __expected_tokens(state)
         }
 
         fn expected_tokens_from_states(&self, states: &[i8]) -> alloc::vec::Vec<alloc::string::String> {
-            ___expected_tokens_from_states(states, core::marker::PhantomData::<()>)
+            __expected_tokens_from_states(states, core::marker::PhantomData::<()>)
         }
 
         #[inline]
@@ -227,7 +198,7 @@ mod ___parse_____sym1 {
         #[inline]
         fn error_recovery_symbol(
             &self,
-            recovery: ___state_machine::ErrorRecovery<Self>,
+            recovery: __state_machine::ErrorRecovery<Self>,
         ) -> Self::Symbol {
             panic!("error recovery not enabled for this grammar")
         }
@@ -237,9 +208,9 @@ mod ___parse_____sym1 {
             action: i8,
             start_location: Option<&Self::Location>,
             states: &mut alloc::vec::Vec<i8>,
-            symbols: &mut alloc::vec::Vec<___state_machine::SymbolTriple<Self>>,
-        ) -> Option<___state_machine::ParseResult<Self>> {
-            ___reduce(
+            symbols: &mut alloc::vec::Vec<__state_machine::SymbolTriple<Self>>,
+        ) -> Option<__state_machine::ParseResult<Self>> {
+            __reduce(
                 action,
                 start_location,
                 states,
@@ -248,873 +219,789 @@ mod ___parse_____sym1 {
             )
         }
 
-        fn simulate_reduce(&self, action: i8) -> ___state_machine::SimulatedReduce<Self> {
-            ___simulate_reduce(action, core::marker::PhantomData::<()>)
+        fn simulate_reduce(&self, action: i8) -> __state_machine::SimulatedReduce<Self> {
+            __simulate_reduce(action, core::marker::PhantomData::<()>)
         }
     }
-    fn ___token_to_integer<
+    fn __token_to_integer<
     >(
-        ___token: &Tok,
+        __token: &Tok,
         _: core::marker::PhantomData<()>,
     ) -> Option<usize>
     {
         #[warn(unused_variables)]
-        match ___token {
+        match __token {
             Tok('a', _, _, _) if true => Some(0),
             Tok('b', _, _, _) if true => Some(1),
             Tok('c', _, _, _) if true => Some(2),
-            Tok('d', _, _, _) if true => Some(3),
-            Tok('e', _, _, _) if true => Some(4),
-            Tok('f', _, _, _) if true => Some(5),
             _ => None,
         }
     }
-    fn ___token_to_symbol<
+    fn __token_to_symbol<
     >(
-        ___token_index: usize,
-        ___token: Tok,
+        __token_index: usize,
+        __token: Tok,
         _: core::marker::PhantomData<()>,
-    ) -> ___Symbol<>
+    ) -> __Symbol<>
     {
-        #[allow(clippy::manual_range_patterns)]match ___token_index {
-            0 | 1 | 2 | 3 | 4 | 5 => ___Symbol::Variant0(___token),
+        #[allow(clippy::manual_range_patterns)]match __token_index {
+            0 | 1 | 2 => __Symbol::Variant0(__token),
             _ => unreachable!(),
         }
     }
-    fn ___simulate_reduce<
+    fn __simulate_reduce<
     >(
-        ___reduce_index: i8,
+        __reduce_index: i8,
         _: core::marker::PhantomData<()>,
-    ) -> ___state_machine::SimulatedReduce<___StateMachine<>>
+    ) -> __state_machine::SimulatedReduce<__StateMachine<>>
     {
-        match ___reduce_index {
+        match __reduce_index {
             0 => {
-                ___state_machine::SimulatedReduce::Reduce {
+                __state_machine::SimulatedReduce::Reduce {
                     states_to_pop: 0,
                     nonterminal_produced: 0,
                 }
             }
             1 => {
-                ___state_machine::SimulatedReduce::Reduce {
+                __state_machine::SimulatedReduce::Reduce {
                     states_to_pop: 0,
                     nonterminal_produced: 1,
                 }
             }
             2 => {
-                ___state_machine::SimulatedReduce::Reduce {
+                __state_machine::SimulatedReduce::Reduce {
                     states_to_pop: 2,
                     nonterminal_produced: 2,
                 }
             }
-            3 => ___state_machine::SimulatedReduce::Accept,
+            3 => {
+                __state_machine::SimulatedReduce::Reduce {
+                    states_to_pop: 3,
+                    nonterminal_produced: 2,
+                }
+            }
             4 => {
-                ___state_machine::SimulatedReduce::Reduce {
+                __state_machine::SimulatedReduce::Reduce {
+                    states_to_pop: 4,
+                    nonterminal_produced: 2,
+                }
+            }
+            5 => {
+                __state_machine::SimulatedReduce::Reduce {
+                    states_to_pop: 5,
+                    nonterminal_produced: 2,
+                }
+            }
+            6 => {
+                __state_machine::SimulatedReduce::Reduce {
+                    states_to_pop: 1,
+                    nonterminal_produced: 3,
+                }
+            }
+            7 => {
+                __state_machine::SimulatedReduce::Reduce {
+                    states_to_pop: 2,
+                    nonterminal_produced: 3,
+                }
+            }
+            8 => {
+                __state_machine::SimulatedReduce::Reduce {
                     states_to_pop: 1,
                     nonterminal_produced: 4,
                 }
             }
-            5 => {
-                ___state_machine::SimulatedReduce::Reduce {
-                    states_to_pop: 3,
-                    nonterminal_produced: 5,
-                }
-            }
-            6 => {
-                ___state_machine::SimulatedReduce::Reduce {
-                    states_to_pop: 3,
-                    nonterminal_produced: 5,
-                }
-            }
-            7 => {
-                ___state_machine::SimulatedReduce::Reduce {
-                    states_to_pop: 3,
-                    nonterminal_produced: 5,
-                }
-            }
-            8 => {
-                ___state_machine::SimulatedReduce::Reduce {
-                    states_to_pop: 3,
-                    nonterminal_produced: 5,
-                }
-            }
-            9 => {
-                ___state_machine::SimulatedReduce::Reduce {
-                    states_to_pop: 2,
-                    nonterminal_produced: 6,
-                }
-            }
-            _ => panic!("invalid reduction index {___reduce_index}")
+            9 => __state_machine::SimulatedReduce::Accept,
+            _ => panic!("invalid reduction index {__reduce_index}")
         }
     }
-    pub struct __sym1Parser {
+    pub struct SParser {
         _priv: (),
     }
 
-    impl Default for __sym1Parser { fn default() -> Self { Self::new() } }
-    impl __sym1Parser {
-        pub fn new() -> __sym1Parser {
-            __sym1Parser {
+    impl Default for SParser { fn default() -> Self { Self::new() } }
+    impl SParser {
+        pub fn new() -> SParser {
+            SParser {
                 _priv: (),
             }
         }
 
         #[allow(dead_code)]
         pub fn parse<
-            ___TOKEN: ___ToTriple<>,
-            ___TOKENS: IntoIterator<Item=___TOKEN>,
+            __TOKEN: __ToTriple<>,
+            __TOKENS: IntoIterator<Item=__TOKEN>,
         >(
             &self,
-            ___tokens0: ___TOKENS,
-        ) -> Result<Tree, ___lalrpop_util::ParseError<i64, Tok, u64>>
+            __tokens0: __TOKENS,
+        ) -> Result<Tree, __lalrpop_util::ParseError<i64, Tok, u64>>
         {
-            let ___tokens = ___tokens0.into_iter();
-            let mut ___tokens = ___tokens.map(|t| ___ToTriple::to_triple(t));
-            ___state_machine::Parser::drive(
-                ___StateMachine {
-                    ___phantom: core::marker::PhantomData::<()>,
+            let __tokens = __tokens0.into_iter();
+            let mut __tokens = __tokens.map(|t| __ToTriple::to_triple(t));
+            __state_machine::Parser::drive(
+                __StateMachine {
+                    __phantom: core::marker::PhantomData::<()>,
                 },
-                ___tokens,
+                __tokens,
             )
         }
     }
-    fn ___accepts<
+    fn __accepts<
     >(
-        ___error_state: Option<i8>,
-        ___states: &[i8],
-        ___opt_integer: Option<usize>,
+        __error_state: Option<i8>,
+        __states: &[i8],
+        __opt_integer: Option<usize>,
         _: core::marker::PhantomData<()>,
     ) -> bool
     {
-        let mut ___states = ___states.to_vec();
-        ___states.extend(___error_state);
+        let mut __states = __states.to_vec();
+        __states.extend(__error_state);
         loop {
-            let mut ___states_len = ___states.len();
-            let ___top = ___states[___states_len - 1];
-            let ___action = match ___opt_integer {
-                None => ___EOF_ACTION[___top as usize],
-                Some(___integer) => ___action(___top, ___integer),
+            let mut __states_len = __states.len();
+            let __top = __states[__states_len - 1];
+            let __action = match __opt_integer {
+                None => __EOF_ACTION[__top as usize],
+                Some(__integer) => __action(__top, __integer),
             };
-            if ___action == 0 { return false; }
-            if ___action > 0 { return true; }
-            let (___to_pop, ___nt) = match ___simulate_reduce(-(___action + 1), core::marker::PhantomData::<()>) {
-                ___state_machine::SimulatedReduce::Reduce {
+            if __action == 0 { return false; }
+            if __action > 0 { return true; }
+            let (__to_pop, __nt) = match __simulate_reduce(-(__action + 1), core::marker::PhantomData::<()>) {
+                __state_machine::SimulatedReduce::Reduce {
                     states_to_pop, nonterminal_produced
                 } => (states_to_pop, nonterminal_produced),
-                ___state_machine::SimulatedReduce::Accept => return true,
+                __state_machine::SimulatedReduce::Accept => return true,
             };
-            ___states_len -= ___to_pop;
-            ___states.truncate(___states_len);
-            let ___top = ___states[___states_len - 1];
-            let ___next_state = ___goto(___top, ___nt);
-            ___states.push(___next_state);
+            __states_len -= __to_pop;
+            __states.truncate(__states_len);
+            let __top = __states[__states_len - 1];
+            let __next_state = __goto(__top, __nt);
+            __states.push(__next_state);
         }
     }
-    fn ___reduce<
+    fn __reduce<
     >(
-        ___action: i8,
-        ___lookahead_start: Option<&i64>,
-        ___states: &mut alloc::vec::Vec<i8>,
-        ___symbols: &mut alloc::vec::Vec<(i64,___Symbol<>,i64)>,
+        __action: i8,
+        __lookahead_start: Option<&i64>,
+        __states: &mut alloc::vec::Vec<i8>,
+        __symbols: &mut alloc::vec::Vec<(i64,__Symbol<>,i64)>,
         _: core::marker::PhantomData<()>,
-    ) -> Option<Result<Tree,___lalrpop_util::ParseError<i64, Tok, u64>>>
+    ) -> Option<Result<Tree,__lalrpop_util::ParseError<i64, Tok, u64>>>
     {
-        let (___pop_states, ___nonterminal) = match ___action {
+        let (__pop_states, __nonterminal) = match __action {
             0 => {
-                ___reduce0(___lookahead_start, ___symbols, core::marker::PhantomData::<()>)
+                __reduce0(__lookahead_start, __symbols, core::marker::PhantomData::<()>)
             }
             1 => {
-                ___reduce1(___lookahead_start, ___symbols, core::marker::PhantomData::<()>)
+                __reduce1(__lookahead_start, __symbols, core::marker::PhantomData::<()>)
             }
             2 => {
-                ___reduce2(___lookahead_start, ___symbols, core::marker::PhantomData::<()>)
+                // S = "x", Y => ActionFn(18);
+                assert!(__symbols.len() >= 2);
+                let __sym1 = __pop_Variant2(__symbols);
+                let __sym0 = __pop_Variant0(__symbols);
+                let __start = __sym0.0.clone();
+                let __end = __sym1.2.clone();
+                let __nt = match super::__action18::<>(__sym0, __sym1) {
+                    Ok(v) => v,
+                    Err(e) => return Some(Err(e)),
+                };
+                __symbols.push((__start, __Symbol::Variant2(__nt), __end));
+                (2, 2)
             }
             3 => {
-                // _____sym1 = __sym1 => ActionFn(0);
-                let ___sym0 = ___pop_Variant2(___symbols);
-                let ___start = ___sym0.0.clone();
-                let ___end = ___sym0.2.clone();
-                let ___nt = super::___action0::<>(___sym0);
-                return Some(Ok(___nt));
+                // S = "x", "x", Y => ActionFn(19);
+                assert!(__symbols.len() >= 3);
+                let __sym2 = __pop_Variant2(__symbols);
+                let __sym1 = __pop_Variant0(__symbols);
+                let __sym0 = __pop_Variant0(__symbols);
+                let __start = __sym0.0.clone();
+                let __end = __sym2.2.clone();
+                let __nt = match super::__action19::<>(__sym0, __sym1, __sym2) {
+                    Ok(v) => v,
+                    Err(e) => return Some(Err(e)),
+                };
+                __symbols.push((__start, __Symbol::Variant2(__nt), __end));
+                (3, 2)
             }
             4 => {
-                ___reduce4(___lookahead_start, ___symbols, core::marker::PhantomData::<()>)
+                // S = S, "z", "x", Y => ActionFn(20);
+                assert!(__symbols.len() >= 4);
+                let __sym3 = __pop_Variant2(__symbols);
+                let __sym2 = __pop_Variant0(__symbols);
+                let __sym1 = __pop_Variant0(__symbols);
+                let __sym0 = __pop_Variant2(__symbols);
+                let __start = __sym0.0.clone();
+                let __end = __sym3.2.clone();
+                let __nt = match super::__action20::<>(__sym0, __sym1, __sym2, __sym3) {
+                    Ok(v) => v,
+                    Err(e) => return Some(Err(e)),
+                };
+                __symbols.push((__start, __Symbol::Variant2(__nt), __end));
+                (4, 2)
             }
             5 => {
-                ___reduce5(___lookahead_start, ___symbols, core::marker::PhantomData::<()>)
+                // S = S, "z", "x", "x", Y => ActionFn(21);
+                assert!(__symbols.len() >= 5);
+                let __sym4 = __pop_Variant2(__symbols);
+                let __sym3 = __pop_Variant0(__symbols);
+                let __sym2 = __pop_Variant0(__symbols);
+                let __sym1 = __pop_Variant0(__symbols);
+                let __sym0 = __pop_Variant2(__symbols);
+                let __start = __sym0.0.clone();
+                let __end = __sym4.2.clone();
+                let __nt = match super::__action21::<>(__sym0, __sym1, __sym2, __sym3, __sym4) {
+                    Ok(v) => v,
+                    Err(e) => return Some(Err(e)),
+                };
+                __symbols.push((__start, __Symbol::Variant2(__nt), __end));
+                (5, 2)
             }
             6 => {
-                ___reduce6(___lookahead_start, ___symbols, core::marker::PhantomData::<()>)
+                // X = "x" => ActionFn(15);
+                let __sym0 = __pop_Variant0(__symbols);
+                let __start = __sym0.0.clone();
+                let __end = __sym0.2.clone();
+                let __nt = match super::__action15::<>(__sym0) {
+                    Ok(v) => v,
+                    Err(e) => return Some(Err(e)),
+                };
+                __symbols.push((__start, __Symbol::Variant2(__nt), __end));
+                (1, 3)
             }
             7 => {
-                ___reduce7(___lookahead_start, ___symbols, core::marker::PhantomData::<()>)
+                // X = "x", "x" => ActionFn(16);
+                assert!(__symbols.len() >= 2);
+                let __sym1 = __pop_Variant0(__symbols);
+                let __sym0 = __pop_Variant0(__symbols);
+                let __start = __sym0.0.clone();
+                let __end = __sym1.2.clone();
+                let __nt = match super::__action16::<>(__sym0, __sym1) {
+                    Ok(v) => v,
+                    Err(e) => return Some(Err(e)),
+                };
+                __symbols.push((__start, __Symbol::Variant2(__nt), __end));
+                (2, 3)
             }
             8 => {
-                ___reduce8(___lookahead_start, ___symbols, core::marker::PhantomData::<()>)
+                // Y = "y" => ActionFn(17);
+                let __sym0 = __pop_Variant0(__symbols);
+                let __start = __sym0.0.clone();
+                let __end = __sym0.2.clone();
+                let __nt = match super::__action17::<>(__sym0) {
+                    Ok(v) => v,
+                    Err(e) => return Some(Err(e)),
+                };
+                __symbols.push((__start, __Symbol::Variant2(__nt), __end));
+                (1, 4)
             }
             9 => {
-                ___reduce9(___lookahead_start, ___symbols, core::marker::PhantomData::<()>)
+                // __S = S => ActionFn(0);
+                let __sym0 = __pop_Variant2(__symbols);
+                let __start = __sym0.0.clone();
+                let __end = __sym0.2.clone();
+                let __nt = super::__action0::<>(__sym0);
+                return Some(Ok(__nt));
             }
-            _ => panic!("invalid action code {___action}")
+            _ => panic!("invalid action code {__action}")
         };
-        let ___states_len = ___states.len();
-        ___states.truncate(___states_len - ___pop_states);
-        let ___state = *___states.last().unwrap();
-        let ___next_state = ___goto(___state, ___nonterminal);
-        ___states.push(___next_state);
+        let __states_len = __states.len();
+        __states.truncate(__states_len - __pop_states);
+        let __state = *__states.last().unwrap();
+        let __next_state = __goto(__state, __nonterminal);
+        __states.push(__next_state);
         None
     }
     #[inline(never)]
-    fn ___symbol_type_mismatch() -> ! {
+    fn __symbol_type_mismatch() -> ! {
         panic!("symbol type mismatch")
     }
-    fn ___pop_Variant0<
+    fn __pop_Variant0<
     >(
-        ___symbols: &mut alloc::vec::Vec<(i64,___Symbol<>,i64)>
+        __symbols: &mut alloc::vec::Vec<(i64,__Symbol<>,i64)>
     ) -> (i64, Tok, i64)
      {
-        match ___symbols.pop() {
-            Some((___l, ___Symbol::Variant0(___v), ___r)) => (___l, ___v, ___r),
-            _ => ___symbol_type_mismatch()
+        match __symbols.pop() {
+            Some((__l, __Symbol::Variant0(__v), __r)) => (__l, __v, __r),
+            _ => __symbol_type_mismatch()
         }
     }
-    fn ___pop_Variant2<
+    fn __pop_Variant2<
     >(
-        ___symbols: &mut alloc::vec::Vec<(i64,___Symbol<>,i64)>
+        __symbols: &mut alloc::vec::Vec<(i64,__Symbol<>,i64)>
     ) -> (i64, Tree, i64)
      {
-        match ___symbols.pop() {
-            Some((___l, ___Symbol::Variant2(___v), ___r)) => (___l, ___v, ___r),
-            _ => ___symbol_type_mismatch()
+        match __symbols.pop() {
+            Some((__l, __Symbol::Variant2(__v), __r)) => (__l, __v, __r),
+            _ => __symbol_type_mismatch()
         }
     }
-    fn ___pop_Variant1<
+    fn __pop_Variant1<
     >(
-        ___symbols: &mut alloc::vec::Vec<(i64,___Symbol<>,i64)>
+        __symbols: &mut alloc::vec::Vec<(i64,__Symbol<>,i64)>
     ) -> (i64, i64, i64)
      {
-        match ___symbols.pop() {
-            Some((___l, ___Symbol::Variant1(___v), ___r)) => (___l, ___v, ___r),
-            _ => ___symbol_type_mismatch()
+        match __symbols.pop() {
+            Some((__l, __Symbol::Variant1(__v), __r)) => (__l, __v, __r),
+            _ => __symbol_type_mismatch()
         }
     }
-    fn ___reduce0<
+    fn __reduce0<
     >(
-        ___lookahead_start: Option<&i64>,
-        ___symbols: &mut alloc::vec::Vec<(i64,___Symbol<>,i64)>,
+        __lookahead_start: Option<&i64>,
+        __symbols: &mut alloc::vec::Vec<(i64,__Symbol<>,i64)>,
         _: core::marker::PhantomData<()>,
     ) -> (usize, usize)
     {
-        // @L =  => ActionFn(9);
-        let ___start = ___lookahead_start.cloned().or_else(|| ___symbols.last().map(|s| s.2.clone())).unwrap_or_default();
-        let ___end = ___start.clone();
-        let ___nt = super::___action9::<>(&___start, &___end);
-        ___symbols.push((___start, ___Symbol::Variant1(___nt), ___end));
+        // @L =  => ActionFn(7);
+        let __start = __lookahead_start.cloned().or_else(|| __symbols.last().map(|s| s.2.clone())).unwrap_or_default();
+        let __end = __start.clone();
+        let __nt = super::__action7::<>(&__start, &__end);
+        __symbols.push((__start, __Symbol::Variant1(__nt), __end));
         (0, 0)
     }
-    fn ___reduce1<
+    fn __reduce1<
     >(
-        ___lookahead_start: Option<&i64>,
-        ___symbols: &mut alloc::vec::Vec<(i64,___Symbol<>,i64)>,
+        __lookahead_start: Option<&i64>,
+        __symbols: &mut alloc::vec::Vec<(i64,__Symbol<>,i64)>,
         _: core::marker::PhantomData<()>,
     ) -> (usize, usize)
     {
-        // @R =  => ActionFn(8);
-        let ___start = ___lookahead_start.cloned().or_else(|| ___symbols.last().map(|s| s.2.clone())).unwrap_or_default();
-        let ___end = ___start.clone();
-        let ___nt = super::___action8::<>(&___start, &___end);
-        ___symbols.push((___start, ___Symbol::Variant1(___nt), ___end));
+        // @R =  => ActionFn(6);
+        let __start = __lookahead_start.cloned().or_else(|| __symbols.last().map(|s| s.2.clone())).unwrap_or_default();
+        let __end = __start.clone();
+        let __nt = super::__action6::<>(&__start, &__end);
+        __symbols.push((__start, __Symbol::Variant1(__nt), __end));
         (0, 1)
-    }
-    fn ___reduce2<
-    >(
-        ___lookahead_start: Option<&i64>,
-        ___symbols: &mut alloc::vec::Vec<(i64,___Symbol<>,i64)>,
-        _: core::marker::PhantomData<()>,
-    ) -> (usize, usize)
-    {
-        // SParser = "e", ___parse___S => ActionFn(17);
-        assert!(___symbols.len() >= 2);
-        let ___sym1 = ___pop_Variant2(___symbols);
-        let ___sym0 = ___pop_Variant0(___symbols);
-        let ___start = ___sym0.0.clone();
-        let ___end = ___sym1.2.clone();
-        let ___nt = super::___action17::<>(___sym0, ___sym1);
-        ___symbols.push((___start, ___Symbol::Variant2(___nt), ___end));
-        (2, 2)
-    }
-    fn ___reduce4<
-    >(
-        ___lookahead_start: Option<&i64>,
-        ___symbols: &mut alloc::vec::Vec<(i64,___Symbol<>,i64)>,
-        _: core::marker::PhantomData<()>,
-    ) -> (usize, usize)
-    {
-        // ___parse___S = "q" => ActionFn(18);
-        let ___sym0 = ___pop_Variant0(___symbols);
-        let ___start = ___sym0.0.clone();
-        let ___end = ___sym0.2.clone();
-        let ___nt = super::___action18::<>(___sym0);
-        ___symbols.push((___start, ___Symbol::Variant2(___nt), ___end));
-        (1, 4)
-    }
-    fn ___reduce5<
-    >(
-        ___lookahead_start: Option<&i64>,
-        ___symbols: &mut alloc::vec::Vec<(i64,___Symbol<>,i64)>,
-        _: core::marker::PhantomData<()>,
-    ) -> (usize, usize)
-    {
-        // __sym1 = "a", __sym11, "d" => ActionFn(19);
-        assert!(___symbols.len() >= 3);
-        let ___sym2 = ___pop_Variant0(___symbols);
-        let ___sym1 = ___pop_Variant2(___symbols);
-        let ___sym0 = ___pop_Variant0(___symbols);
-        let ___start = ___sym0.0.clone();
-        let ___end = ___sym2.2.clone();
-        let ___nt = super::___action19::<>(___sym0, ___sym1, ___sym2);
-        ___symbols.push((___start, ___Symbol::Variant2(___nt), ___end));
-        (3, 5)
-    }
-    fn ___reduce6<
-    >(
-        ___lookahead_start: Option<&i64>,
-        ___symbols: &mut alloc::vec::Vec<(i64,___Symbol<>,i64)>,
-        _: core::marker::PhantomData<()>,
-    ) -> (usize, usize)
-    {
-        // __sym1 = "a", SParser, "c" => ActionFn(20);
-        assert!(___symbols.len() >= 3);
-        let ___sym2 = ___pop_Variant0(___symbols);
-        let ___sym1 = ___pop_Variant2(___symbols);
-        let ___sym0 = ___pop_Variant0(___symbols);
-        let ___start = ___sym0.0.clone();
-        let ___end = ___sym2.2.clone();
-        let ___nt = super::___action20::<>(___sym0, ___sym1, ___sym2);
-        ___symbols.push((___start, ___Symbol::Variant2(___nt), ___end));
-        (3, 5)
-    }
-    fn ___reduce7<
-    >(
-        ___lookahead_start: Option<&i64>,
-        ___symbols: &mut alloc::vec::Vec<(i64,___Symbol<>,i64)>,
-        _: core::marker::PhantomData<()>,
-    ) -> (usize, usize)
-    {
-        // __sym1 = "b", __sym11, "c" => ActionFn(21);
-        assert!(___symbols.len() >= 3);
-        let ___sym2 = ___pop_Variant0(___symbols);
-        let ___sym1 = ___pop_Variant2(___symbols);
-        let ___sym0 = ___pop_Variant0(___symbols);
-        let ___start = ___sym0.0.clone();
-        let ___end = ___sym2.2.clone();
-        let ___nt = super::___action21::<>(___sym0, ___sym1, ___sym2);
-        ___symbols.push((___start, ___Symbol::Variant2(___nt), ___end));
-        (3, 5)
-    }
-    fn ___reduce8<
-    >(
-        ___lookahead_start: Option<&i64>,
-        ___symbols: &mut alloc::vec::Vec<(i64,___Symbol<>,i64)>,
-        _: core::marker::PhantomData<()>,
-    ) -> (usize, usize)
-    {
-        // __sym1 = "b", SParser, "d" => ActionFn(22);
-        assert!(___symbols.len() >= 3);
-        let ___sym2 = ___pop_Variant0(___symbols);
-        let ___sym1 = ___pop_Variant2(___symbols);
-        let ___sym0 = ___pop_Variant0(___symbols);
-        let ___start = ___sym0.0.clone();
-        let ___end = ___sym2.2.clone();
-        let ___nt = super::___action22::<>(___sym0, ___sym1, ___sym2);
-        ___symbols.push((___start, ___Symbol::Variant2(___nt), ___end));
-        (3, 5)
-    }
-    fn ___reduce9<
-    >(
-        ___lookahead_start: Option<&i64>,
-        ___symbols: &mut alloc::vec::Vec<(i64,___Symbol<>,i64)>,
-        _: core::marker::PhantomData<()>,
-    ) -> (usize, usize)
-    {
-        // __sym11 = "e", ___parse___S => ActionFn(23);
-        assert!(___symbols.len() >= 2);
-        let ___sym1 = ___pop_Variant2(___symbols);
-        let ___sym0 = ___pop_Variant0(___symbols);
-        let ___start = ___sym0.0.clone();
-        let ___end = ___sym1.2.clone();
-        let ___nt = super::___action23::<>(___sym0, ___sym1);
-        ___symbols.push((___start, ___Symbol::Variant2(___nt), ___end));
-        (2, 6)
     }
 }
 #[allow(unused_imports)]
-pub use self::___parse_____sym1::__sym1Parser;
+pub use self::__parse__S::SParser;
 
 #[allow(clippy::too_many_arguments, clippy::needless_lifetimes, clippy::just_underscores_and_digits, clippy::extra_unused_type_parameters)]
-fn ___action0<
+fn __action0<
 >(
-    (_, ___0, _): (i64, Tree, i64),
+    (_, __0, _): (i64, Tree, i64),
 ) -> Tree
 {
-    ___0
+    __0
 }
 
 #[allow(clippy::too_many_arguments, clippy::needless_lifetimes, clippy::just_underscores_and_digits, clippy::extra_unused_type_parameters)]
-fn ___action1<
+fn __action1<
 >(
-    (_, __sym1, _): (i64, i64, i64),
-    (_, ___0, _): (i64, Tok, i64),
-    (_, __sym0, _): (i64, Tree, i64),
-    (_, ___lookahead, _): (i64, Tok, i64),
-    (_, __start, _): (i64, i64, i64),
+    (_, l, _): (i64, i64, i64),
+    (_, c0, _): (i64, Tree, i64),
+    (_, c1, _): (i64, Tree, i64),
+    (_, r, _): (i64, i64, i64),
 ) -> Tree
 {
-    node("__sym1#0", __sym1, __start, vec![Tree::from(___0), Tree::from(__sym0), Tree::from(___lookahead)])
+    node("S#0", l, r, vec![Tree::from(c0), Tree::from(c1)])
 }
 
 #[allow(clippy::too_many_arguments, clippy::needless_lifetimes, clippy::just_underscores_and_digits, clippy::extra_unused_type_parameters)]
-fn ___action2<
+fn __action2<
 >(
-    (_, __sym1, _): (i64, i64, i64),
-    (_, ___0, _): (i64, Tok, i64),
-    (_, __sym0, _): (i64, Tree, i64),
-    (_, ___lookahead, _): (i64, Tok, i64),
-    (_, __start, _): (i64, i64, i64),
+    (_, l, _): (i64, i64, i64),
+    (_, c0, _): (i64, Tree, i64),
+    (_, c1, _): (i64, Tok, i64),
+    (_, c2, _): (i64, Tree, i64),
+    (_, c3, _): (i64, Tree, i64),
+    (_, r, _): (i64, i64, i64),
 ) -> Tree
 {
-    node("__sym1#1", __sym1, __start, vec![Tree::from(___0), Tree::from(__sym0), Tree::from(___lookahead)])
+    node("S#1", l, r, vec![Tree::from(c0), Tree::from(c1), Tree::from(c2), Tree::from(c3)])
 }
 
 #[allow(clippy::too_many_arguments, clippy::needless_lifetimes, clippy::just_underscores_and_digits, clippy::extra_unused_type_parameters)]
-fn ___action3<
+fn __action3<
 >(
-    (_, __sym1, _): (i64, i64, i64),
-    (_, ___0, _): (i64, Tok, i64),
-    (_, __sym0, _): (i64, Tree, i64),
-    (_, ___lookahead, _): (i64, Tok, i64),
-    (_, __start, _): (i64, i64, i64),
-) -> Tree
+    (_, l, _): (i64, i64, i64),
+    (_, c0, _): (i64, Tok, i64),
+    (_, r, _): (i64, i64, i64),
+) -> Result<Tree,__lalrpop_util::ParseError<i64,Tok,u64>>
 {
-    node("__sym1#2", __sym1, __start, vec![Tree::from(___0), Tree::from(__sym0), Tree::from(___lookahead)])
+    fallible("X#0", l, r, vec![Tree::from(c0)])
 }
 
 #[allow(clippy::too_many_arguments, clippy::needless_lifetimes, clippy::just_underscores_and_digits, clippy::extra_unused_type_parameters)]
-fn ___action4<
+fn __action4<
 >(
-    (_, __sym1, _): (i64, i64, i64),
-    (_, ___0, _): (i64, Tok, i64),
-    (_, __sym0, _): (i64, Tree, i64),
-    (_, ___lookahead, _): (i64, Tok, i64),
-    (_, __start, _): (i64, i64, i64),
-) -> Tree
+    (_, l, _): (i64, i64, i64),
+    (_, c0, _): (i64, Tok, i64),
+    (_, c1, _): (i64, Tok, i64),
+    (_, r, _): (i64, i64, i64),
+) -> Result<Tree,__lalrpop_util::ParseError<i64,Tok,u64>>
 {
-    node("__sym1#3", __sym1, __start, vec![Tree::from(___0), Tree::from(__sym0), Tree::from(___lookahead)])
+    fallible("X#1", l, r, vec![Tree::from(c0), Tree::from(c1)])
 }
 
 #[allow(clippy::too_many_arguments, clippy::needless_lifetimes, clippy::just_underscores_and_digits, clippy::extra_unused_type_parameters)]
-fn ___action5<
+fn __action5<
 >(
-    (_, __sym1, _): (i64, i64, i64),
-    (_, ___0, _): (i64, Tok, i64),
-    (_, __sym0, _): (i64, Tree, i64),
-    (_, __start, _): (i64, i64, i64),
-) -> Tree
+    (_, l, _): (i64, i64, i64),
+    (_, c0, _): (i64, Tok, i64),
+    (_, r, _): (i64, i64, i64),
+) -> Result<Tree,__lalrpop_util::ParseError<i64,Tok,u64>>
 {
-    node("__sym11#0", __sym1, __start, vec![Tree::from(___0), Tree::from(__sym0)])
-}
-
-#[allow(clippy::too_many_arguments, clippy::needless_lifetimes, clippy::just_underscores_and_digits, clippy::extra_unused_type_parameters)]
-fn ___action6<
->(
-    (_, __sym1, _): (i64, i64, i64),
-    (_, ___0, _): (i64, Tok, i64),
-    (_, __sym0, _): (i64, Tree, i64),
-    (_, __start, _): (i64, i64, i64),
-) -> Tree
-{
-    node("SParser#0", __sym1, __start, vec![Tree::from(___0), Tree::from(__sym0)])
-}
-
-#[allow(clippy::too_many_arguments, clippy::needless_lifetimes, clippy::just_underscores_and_digits, clippy::extra_unused_type_parameters)]
-fn ___action7<
->(
-    (_, __sym1, _): (i64, i64, i64),
-    (_, ___0, _): (i64, Tok, i64),
-    (_, __start, _): (i64, i64, i64),
-) -> Tree
-{
-    node("___parse___S#0", __sym1, __start, vec![Tree::from(___0)])
+    fallible("Y#0", l, r, vec![Tree::from(c0)])
 }
 
 #[allow(clippy::needless_lifetimes, clippy::clone_on_copy)]
-fn ___action8<
+fn __action6<
 >(
-    ___lookbehind: &i64,
-    ___lookahead: &i64,
+    __lookbehind: &i64,
+    __lookahead: &i64,
 ) -> i64
 {
-    ___lookbehind.clone()
+    __lookbehind.clone()
 }
 
 #[allow(clippy::needless_lifetimes, clippy::clone_on_copy)]
-fn ___action9<
+fn __action7<
 >(
-    ___lookbehind: &i64,
-    ___lookahead: &i64,
+    __lookbehind: &i64,
+    __lookahead: &i64,
 ) -> i64
 {
-    ___lookahead.clone()
+    __lookahead.clone()
 }
 
 #[allow(clippy::too_many_arguments, clippy::needless_lifetimes,
     clippy::just_underscores_and_digits, clippy::clone_on_copy, clippy::unit_arg)]
-fn ___action10<
+fn __action8<
 >(
-    ___0: (i64, Tok, i64),
-    ___1: (i64, Tree, i64),
-    ___2: (i64, i64, i64),
+    __0: (i64, Tree, i64),
+    __1: (i64, Tree, i64),
+    __2: (i64, i64, i64),
 ) -> Tree
 {
-    let ___start0 = ___0.0.clone();
-    let ___end0 = ___0.0.clone();
-    let ___temp0 = ___action9(
-        &___start0,
-        &___end0,
+    let __start0 = __0.0.clone();
+    let __end0 = __0.0.clone();
+    let __temp0 = __action7(
+        &__start0,
+        &__end0,
     );
-    let ___temp0 = (___start0, ___temp0, ___end0);
-    ___action6(
-        ___temp0,
-        ___0,
-        ___1,
-        ___2,
+    let __temp0 = (__start0, __temp0, __end0);
+    __action1(
+        __temp0,
+        __0,
+        __1,
+        __2,
     )
 }
 
 #[allow(clippy::too_many_arguments, clippy::needless_lifetimes,
     clippy::just_underscores_and_digits, clippy::clone_on_copy, clippy::unit_arg)]
-fn ___action11<
+fn __action9<
 >(
-    ___0: (i64, Tok, i64),
-    ___1: (i64, i64, i64),
+    __0: (i64, Tree, i64),
+    __1: (i64, Tok, i64),
+    __2: (i64, Tree, i64),
+    __3: (i64, Tree, i64),
+    __4: (i64, i64, i64),
 ) -> Tree
 {
-    let ___start0 = ___0.0.clone();
-    let ___end0 = ___0.0.clone();
-    let ___temp0 = ___action9(
-        &___start0,
-        &___end0,
+    let __start0 = __0.0.clone();
+    let __end0 = __0.0.clone();
+    let __temp0 = __action7(
+        &__start0,
+        &__end0,
     );
-    let ___temp0 = (___start0, ___temp0, ___end0);
-    ___action7(
-        ___temp0,
-        ___0,
-        ___1,
+    let __temp0 = (__start0, __temp0, __end0);
+    __action2(
+        __temp0,
+        __0,
+        __1,
+        __2,
+        __3,
+        __4,
     )
 }
 
 #[allow(clippy::too_many_arguments, clippy::needless_lifetimes,
     clippy::just_underscores_and_digits, clippy::clone_on_copy, clippy::unit_arg)]
-fn ___action12<
+fn __action10<
 >(
-    ___0: (i64, Tok, i64),
-    ___1: (i64, Tree, i64),
-    ___2: (i64, Tok, i64),
-    ___3: (i64, i64, i64),
-) -> Tree
+    __0: (i64, Tok, i64),
+    __1: (i64, i64, i64),
+) -> Result<Tree,__lalrpop_util::ParseError<i64,Tok,u64>>
 {
-    let ___start0 = ___0.0.clone();
-    let ___end0 = ___0.0.clone();
-    let ___temp0 = ___action9(
-        &___start0,
-        &___end0,
+    let __start0 = __0.0.clone();
+    let __end0 = __0.0.clone();
+    let __temp0 = __action7(
+        &__start0,
+        &__end0,
     );
-    let ___temp0 = (___start0, ___temp0, ___end0);
-    ___action1(
-        ___temp0,
-        ___0,
-        ___1,
-        ___2,
-        ___3,
+    let __temp0 = (__start0, __temp0, __end0);
+    __action3(
+        __temp0,
+        __0,
+        __1,
     )
 }
 
 #[allow(clippy::too_many_arguments, clippy::needless_lifetimes,
     clippy::just_underscores_and_digits, clippy::clone_on_copy, clippy::unit_arg)]
-fn ___action13<
+fn __action11<
 >(
-    ___0: (i64, Tok, i64),
-    ___1: (i64, Tree, i64),
-    ___2: (i64, Tok, i64),
-    ___3: (i64, i64, i64),
-) -> Tree
+    __0: (i64, Tok, i64),
+    __1: (i64, Tok, i64),
+    __2: (i64, i64, i64),
+) -> Result<Tree,__lalrpop_util::ParseError<i64,Tok,u64>>
 {
-    let ___start0 = ___0.0.clone();
-    let ___end0 = ___0.0.clone();
-    let ___temp0 = ___action9(
-        &___start0,
-        &___end0,
+    let __start0 = __0.0.clone();
+    let __end0 = __0.0.clone();
+    let __temp0 = __action7(
+        &__start0,
+        &__end0,
     );
-    let ___temp0 = (___start0, ___temp0, ___end0);
-    ___action2(
-        ___temp0,
-        ___0,
-        ___1,
-        ___2,
-        ___3,
+    let __temp0 = (__start0, __temp0, __end0);
+    __action4(
+        __temp0,
+        __0,
+        __1,
+        __2,
     )
 }
 
 #[allow(clippy::too_many_arguments, clippy::needless_lifetimes,
     clippy::just_underscores_and_digits, clippy::clone_on_copy, clippy::unit_arg)]
-fn ___action14<
+fn __action12<
 >(
-    ___0: (i64, Tok, i64),
-    ___1: (i64, Tree, i64),
-    ___2: (i64, Tok, i64),
-    ___3: (i64, i64, i64),
-) -> Tree
+    __0: (i64, Tok, i64),
+    __1: (i64, i64, i64),
+) -> Result<Tree,__lalrpop_util::ParseError<i64,Tok,u64>>
 {
-    let ___start0 = ___0.0.clone();
-    let ___end0 = ___0.0.clone();
-    let ___temp0 = ___action9(
-        &___start0,
-        &___end0,
+    let __start0 = __0.0.clone();
+    let __end0 = __0.0.clone();
+    let __temp0 = __action7(
+        &__start0,
+        &__end0,
     );
-    let ___temp0 = (___start0, ___temp0, ___end0);
-    ___action3(
-        ___temp0,
-        ___0,
-        ___1,
-        ___2,
-        ___3,
+    let __temp0 = (__start0, __temp0, __end0);
+    __action5(
+        __temp0,
+        __0,
+        __1,
     )
 }
 
 #[allow(clippy::too_many_arguments, clippy::needless_lifetimes,
     clippy::just_underscores_and_digits, clippy::clone_on_copy, clippy::unit_arg)]
-fn ___action15<
+fn __action13<
 >(
-    ___0: (i64, Tok, i64),
-    ___1: (i64, Tree, i64),
-    ___2: (i64, Tok, i64),
-    ___3: (i64, i64, i64),
+    __0: (i64, Tree, i64),
+    __1: (i64, Tree, i64),
 ) -> Tree
 {
-    let ___start0 = ___0.0.clone();
-    let ___end0 = ___0.0.clone();
-    let ___temp0 = ___action9(
-        &___start0,
-        &___end0,
+    let __start0 = __1.2.clone();
+    let __end0 = __1.2.clone();
+    let __temp0 = __action6(
+        &__start0,
+        &__end0,
     );
-    let ___temp0 = (___start0, ___temp0, ___end0);
-    ___action4(
-        ___temp0,
-        ___0,
-        ___1,
-        ___2,
-        ___3,
+    let __temp0 = (__start0, __temp0, __end0);
+    __action8(
+        __0,
+        __1,
+        __temp0,
     )
 }
 
 #[allow(clippy::too_many_arguments, clippy::needless_lifetimes,
     clippy::just_underscores_and_digits, clippy::clone_on_copy, clippy::unit_arg)]
-fn ___action16<
+fn __action14<
 >(
-    ___0: (i64, Tok, i64),
-    ___1: (i64, Tree, i64),
-    ___2: (i64, i64, i64),
+    __0: (i64, Tree, i64),
+    __1: (i64, Tok, i64),
+    __2: (i64, Tree, i64),
+    __3: (i64, Tree, i64),
 ) -> Tree
 {
-    let ___start0 = ___0.0.clone();
-    let ___end0 = ___0.0.clone();
-    let ___temp0 = ___action9(
-        &___start0,
-        &___end0,
+    let __start0 = __3.2.clone();
+    let __end0 = __3.2.clone();
+    let __temp0 = __action6(
+        &__start0,
+        &__end0,
     );
-    let ___temp0 = (___start0, ___temp0, ___end0);
-    ___action5(
-        ___temp0,
-        ___0,
-        ___1,
-        ___2,
+    let __temp0 = (__start0, __temp0, __end0);
+    __action9(
+        __0,
+        __1,
+        __2,
+        __3,
+        __temp0,
     )
 }
 
 #[allow(clippy::too_many_arguments, clippy::needless_lifetimes,
     clippy::just_underscores_and_digits, clippy::clone_on_copy, clippy::unit_arg)]
-fn ___action17<
+fn __action15<
 >(
-    ___0: (i64, Tok, i64),
-    ___1: (i64, Tree, i64),
-) -> Tree
+    __0: (i64, Tok, i64),
+) -> Result<Tree,__lalrpop_util::ParseError<i64,Tok,u64>>
 {
-    let ___start0 = ___1.2.clone();
-    let ___end0 = ___1.2.clone();
-    let ___temp0 = ___action8(
-        &___start0,
-        &___end0,
+    let __start0 = __0.2.clone();
+    let __end0 = __0.2.clone();
+    let __temp0 = __action6(
+        &__start0,
+        &__end0,
     );
-    let ___temp0 = (___start0, ___temp0, ___end0);
-    ___action10(
-        ___0,
-        ___1,
-        ___temp0,
+    let __temp0 = (__start0, __temp0, __end0);
+    __action10(
+        __0,
+        __temp0,
     )
 }
 
 #[allow(clippy::too_many_arguments, clippy::needless_lifetimes,
     clippy::just_underscores_and_digits, clippy::clone_on_copy, clippy::unit_arg)]
-fn ___action18<
+fn __action16<
 >(
-    ___0: (i64, Tok, i64),
-) -> Tree
+    __0: (i64, Tok, i64),
+    __1: (i64, Tok, i64),
+) -> Result<Tree,__lalrpop_util::ParseError<i64,Tok,u64>>
 {
-    let ___start0 = ___0.2.clone();
-    let ___end0 = ___0.2.clone();
-    let ___temp0 = ___action8(
-        &___start0,
-        &___end0,
+    let __start0 = __1.2.clone();
+    let __end0 = __1.2.clone();
+    let __temp0 = __action6(
+        &__start0,
+        &__end0,
     );
-    let ___temp0 = (___start0, ___temp0, ___end0);
-    ___action11(
-        ___0,
-        ___temp0,
+    let __temp0 = (__start0, __temp0, __end0);
+    __action11(
+        __0,
+        __1,
+        __temp0,
     )
 }
 
 #[allow(clippy::too_many_arguments, clippy::needless_lifetimes,
     clippy::just_underscores_and_digits, clippy::clone_on_copy, clippy::unit_arg)]
-fn ___action19<
+fn __action17<
 >(
-    ___0: (i64, Tok, i64),
-    ___1: (i64, Tree, i64),
-    ___2: (i64, Tok, i64),
-) -> Tree
+    __0: (i64, Tok, i64),
+) -> Result<Tree,__lalrpop_util::ParseError<i64,Tok,u64>>
 {
-    let ___start0 = ___2.2.clone();
-    let ___end0 = ___2.2.clone();
-    let ___temp0 = ___action8(
-        &___start0,
-        &___end0,
+    let __start0 = __0.2.clone();
+    let __end0 = __0.2.clone();
+    let __temp0 = __action6(
+        &__start0,
+        &__end0,
     );
-    let ___temp0 = (___start0, ___temp0, ___end0);
-    ___action12(
-        ___0,
-        ___1,
-        ___2,
-        ___temp0,
+    let __temp0 = (__start0, __temp0, __end0);
+    __action12(
+        __0,
+        __temp0,
     )
 }
 
 #[allow(clippy::too_many_arguments, clippy::needless_lifetimes,
     clippy::just_underscores_and_digits, clippy::clone_on_copy, clippy::unit_arg)]
-fn ___action20<
+fn __action18<
 >(
-    ___0: (i64, Tok, i64),
-    ___1: (i64, Tree, i64),
-    ___2: (i64, Tok, i64),
-) -> Tree
+    __0: (i64, Tok, i64),
+    __1: (i64, Tree, i64),
+) -> Result<Tree,__lalrpop_util::ParseError<i64,Tok,u64>>
 {
-    let ___start0 = ___2.2.clone();
-    let ___end0 = ___2.2.clone();
-    let ___temp0 = ___action8(
-        &___start0,
-        &___end0,
-    );
-    let ___temp0 = (___start0, ___temp0, ___end0);
-    ___action13(
-        ___0,
-        ___1,
-        ___2,
-        ___temp0,
-    )
+    let __start0 = __0.0.clone();
+    let __end0 = __0.2.clone();
+    let __temp0 = __action15(
+        __0,
+    )?;
+    let __temp0 = (__start0, __temp0, __end0);
+    Ok(__action13(
+        __temp0,
+        __1,
+    ))
 }
 
 #[allow(clippy::too_many_arguments, clippy::needless_lifetimes,
     clippy::just_underscores_and_digits, clippy::clone_on_copy, clippy::unit_arg)]
-fn ___action21<
+fn __action19<
 >(
-    ___0: (i64, Tok, i64),
-    ___1: (i64, Tree, i64),
-    ___2: (i64, Tok, i64),
-) -> Tree
+    __0: (i64, Tok, i64),
+    __1: (i64, Tok, i64),
+    __2: (i64, Tree, i64),
+) -> Result<Tree,__lalrpop_util::ParseError<i64,Tok,u64>>
 {
-    let ___start0 = ___2.2.clone();
-    let ___end0 = ___2.2.clone();
-    let ___temp0 = ___action8(
-        &___start0,
-        &___end0,
-    );
-    let ___temp0 = (___start0, ___temp0, ___end0);
-    ___action14(
-        ___0,
-        ___1,
-        ___2,
-        ___temp0,
-    )
+    let __start0 = __0.0.clone();
+    let __end0 = __1.2.clone();
+    let __temp0 = __action16(
+        __0,
+        __1,
+    )?;
+    let __temp0 = (__start0, __temp0, __end0);
+    Ok(__action13(
+        __temp0,
+        __2,
+    ))
 }
 
 #[allow(clippy::too_many_arguments, clippy::needless_lifetimes,
     clippy::just_underscores_and_digits, clippy::clone_on_copy, clippy::unit_arg)]
-fn ___action22<
+fn __action20<
 >(
-    ___0: (i64, Tok, i64),
-    ___1: (i64, Tree, i64),
-    ___2: (i64, Tok, i64),
-) -> Tree
+    __0: (i64, Tree, i64),
+    __1: (i64, Tok, i64),
+    __2: (i64, Tok, i64),
+    __3: (i64, Tree, i64),
+) -> Result<Tree,__lalrpop_util::ParseError<i64,Tok,u64>>
 {
-    let ___start0 = ___2.2.clone();
-    let ___end0 = ___2.2.clone();
-    let ___temp0 = ___action8(
-        &___start0,
-        &___end0,
-    );
-    let ___temp0 = (___start0, ___temp0, ___end0);
-    ___action15(
-        ___0,
-        ___1,
-        ___2,
-        ___temp0,
-    )
+    let __start0 = __2.0.clone();
+    let __end0 = __2.2.clone();
+    let __temp0 = __action15(
+        __2,
+    )?;
+    let __temp0 = (__start0, __temp0, __end0);
+    Ok(__action14(
+        __0,
+        __1,
+        __temp0,
+        __3,
+    ))
 }
 
 #[allow(clippy::too_many_arguments, clippy::needless_lifetimes,
     clippy::just_underscores_and_digits, clippy::clone_on_copy, clippy::unit_arg)]
-fn ___action23<
+fn __action21<
 >(
-    ___0: (i64, Tok, i64),
-    ___1: (i64, Tree, i64),
-) -> Tree
+    __0: (i64, Tree, i64),
+    __1: (i64, Tok, i64),
+    __2: (i64, Tok, i64),
+    __3: (i64, Tok, i64),
+    __4: (i64, Tree, i64),
+) -> Result<Tree,__lalrpop_util::ParseError<i64,Tok,u64>>
 {
-    let ___start0 = ___1.2.clone();
-    let ___end0 = ___1.2.clone();
-    let ___temp0 = ___action8(
-        &___start0,
-        &___end0,
-    );
-    let ___temp0 = (___start0, ___temp0, ___end0);
-    ___action16(
-        ___0,
-        ___1,
-        ___temp0,
-    )
+    let __start0 = __2.0.clone();
+    let __end0 = __3.2.clone();
+    let __temp0 = __action16(
+        __2,
+        __3,
+    )?;
+    let __temp0 = (__start0, __temp0, __end0);
+    Ok(__action14(
+        __0,
+        __1,
+        __temp0,
+        __4,
+    ))
 }
 
 #[allow(clippy::type_complexity, dead_code)]
-pub trait ___ToTriple<>
+pub trait __ToTriple<>
 {
-    fn to_triple(self) -> Result<(i64,Tok,i64), ___lalrpop_util::ParseError<i64, Tok, u64>>;
+    fn to_triple(self) -> Result<(i64,Tok,i64), __lalrpop_util::ParseError<i64, Tok, u64>>;
 }
 
-impl<> ___ToTriple<> for (i64, Tok, i64)
+impl<> __ToTriple<> for (i64, Tok, i64)
 {
-    fn to_triple(self) -> Result<(i64,Tok,i64), ___lalrpop_util::ParseError<i64, Tok, u64>> {
+    fn to_triple(self) -> Result<(i64,Tok,i64), __lalrpop_util::ParseError<i64, Tok, u64>> {
         Ok(self)
     }
 }
-impl<> ___ToTriple<> for Result<(i64, Tok, i64), u64>
+impl<> __ToTriple<> for Result<(i64, Tok, i64), u64>
 {
-    fn to_triple(self) -> Result<(i64,Tok,i64), ___lalrpop_util::ParseError<i64, Tok, u64>> {
-        self.map_err(|error| ___lalrpop_util::ParseError::User { error })
+    fn to_triple(self) -> Result<(i64,Tok,i64), __lalrpop_util::ParseError<i64, Tok, u64>> {
+        self.map_err(|error| __lalrpop_util::ParseError::User { error })
     }
 }
